@@ -11,7 +11,7 @@
    deletion / garbage collection / swaps.  The step that IS proved towards it is C09_reorder_keeps_cache_partial. *)
 From Coq Require Import ZArith List Lia Permutation.
 From OVM Require Import Kernel.State Kernel.Ops Kernel.Mirror Kernel2.LookupModel Kernel2.ListAux
-                        Kernel2.AdjacentProofs Kernel2.RotationProofs.
+                        Kernel2.AdjacentProofs Kernel2.RotationProofs Kernel.Closure Kernel2.ReorderExact.
 Import ListNotations.
 Local Open Scope nat_scope.
 
@@ -108,6 +108,97 @@ Theorem C09_chain_backward_links_from_closed_cells : forall s h l,
   linked (fwd_link s h) l -> linked (bwd_link s h) l.
 Proof. exact linked_bwd_of_closed. Qed.
 Print Assumptions C09_chain_backward_links_from_closed_cells.
+
+(* ------------------------------------------------------------------ reorder never loses or duplicates a halfface *)
+(* (Kernel2/ReorderExact.v; used by C01: cache exactness is preserved by reorder_incident_halffaces) *)
+
+(* R1: at most the two slots 2e, 2e+1 of the halfedge->halfface cache change *)
+Theorem C09_reorder_frame : forall e s,
+  (exists x, reorder_incident_halffaces e s = set_inc_hfs x s) /\
+  length (inc_hfs (reorder_incident_halffaces e s)) = length (inc_hfs s) /\
+  (forall k, k <> 2 * e -> k <> 2 * e + 1 -> hfs_at (reorder_incident_halffaces e s) k = hfs_at s k).
+Proof.
+  intros e s. split; [exact (reorder_frame e s)|]. split; [exact (reorder_inc_hfs_length e s)|].
+  intros k. exact (reorder_other_slots e s k).
+Qed.
+Print Assumptions C09_reorder_frame.
+
+(* R2, local form: if the list L at 2e is duplicate-free, closed under the forward and the backward walk step, the two
+   steps are inverse to each other on L, and the list at 2e+1 is a permutation of the mirrored L, then the new lists
+   are permutations of the old ones (and the new list at 2e+1 is the mirrored reverse of the new list at 2e
+   whenever anything is written) *)
+Theorem C09_reorder_permutes_local : forall s e,
+  let L := hfs_at s (2 * e) in
+  NoDup L -> walk_closed s (2 * e) L -> adj_involutive_on s (2 * e) L ->
+  Permutation (hfs_at s (2 * e + 1)) (map opp L) ->
+  let s' := reorder_incident_halffaces e s in
+  Permutation (hfs_at s' (2 * e)) L /\
+  Permutation (hfs_at s' (2 * e + 1)) (map opp L) /\
+  Permutation (hfs_at s' (2 * e + 1)) (hfs_at s (2 * e + 1)) /\
+  (hfs_at s' (2 * e) = L /\ hfs_at s' (2 * e + 1) = hfs_at s (2 * e + 1) \/
+   hfs_at s' (2 * e + 1) = rev (map opp (hfs_at s' (2 * e)))).
+Proof. exact reorder_permutes_local. Qed.
+Print Assumptions C09_reorder_permutes_local.
+
+(* where the local hypotheses come from: closure under the steps from what the READ cells contribute to the edge (or
+   from completeness of the list), the involution from closedness of the READ cells *)
+Theorem C09_walk_closed_from_cells : forall s h L,
+  slot_sound s h L -> cells_feed_slot s h L -> walk_closed s h L.
+Proof. exact walk_closed_of_cells. Qed.
+Print Assumptions C09_walk_closed_from_cells.
+
+Theorem C09_cells_feed_slot_from_completeness : forall s h L,
+  cell_read_ok s -> slot_complete s h L -> cells_feed_slot s h L.
+Proof. exact cells_feed_slot_of_complete. Qed.
+Print Assumptions C09_cells_feed_slot_from_completeness.
+
+Theorem C09_involution_from_closed_cells : forall s h L,
+  cell_read_closed s -> slot_sound s h L -> adj_involutive_on s h L.
+Proof. exact adj_involutive_of_read_closed. Qed.
+Print Assumptions C09_involution_from_closed_cells.
+
+(* R2, global form *)
+Theorem C09_reorder_permutes : forall s e,
+  fbu s = true -> fbu_ok s -> cells_ref_live s -> live_cells_closed s ->
+  slot_exact s (2 * e) -> slot_exact s (2 * e + 1) ->
+  Permutation (hfs_at (reorder_incident_halffaces e s) (2 * e)) (hfs_at s (2 * e)) /\
+  Permutation (hfs_at (reorder_incident_halffaces e s) (2 * e + 1)) (hfs_at s (2 * e + 1)).
+Proof. exact reorder_permutes. Qed.
+Print Assumptions C09_reorder_permutes.
+
+(* FULL STATEMENT without "live cells are closed" (false, also in reachable states): the same conclusion from exact,
+   duplicate-free caches alone.  Witness: five triangles around one edge and two cells, accepted by add_cell without
+   topology check, that contain three of their halffaces each; the second add_cell writes [6;2;0;2;4] over
+   [0;2;4;6;8]: halfface 8 is lost, halfface 2 doubled (replayed on the real library: identical). *)
+Theorem C09_reorder_permutes_refuted :
+  ebu_ok_b nonmanifold_before = true /\ fbu_ok_b nonmanifold_before = true /\
+  ebu_ok_b nonmanifold_mid = true /\ slots_nodup_b nonmanifold_mid = true /\ fbu_ok_b nonmanifold_mid = true /\
+  cells_ref_live_b nonmanifold_mid = true /\
+  closed_cell_b nonmanifold_mid 0 = false /\ closed_cell_b nonmanifold_mid 1 = false /\
+  hfs_at nonmanifold_mid 0 = [0; 2; 4; 6; 8] /\
+  hfs_at (reorder_incident_halffaces 0 nonmanifold_mid) 0 = [6; 2; 0; 2; 4] /\
+  ~ Permutation (hfs_at (reorder_incident_halffaces 0 nonmanifold_mid) 0) (hfs_at nonmanifold_mid 0) /\
+  hfs_at nonmanifold_after 0 = [6; 2; 0; 2; 4] /\ ebu_ok_b nonmanifold_after = false.
+Proof. exact reorder_permutation_refuted. Qed.
+Print Assumptions C09_reorder_permutes_refuted.
+
+(* R3: the bundle (both incidence kinds on, exact duplicate-free caches, live cells closed and referencing live faces)
+   is preserved by reorder_incident_halffaces e and reorder_edges es for ANY e, es *)
+Theorem C09_reorder_inv_preserved : forall es s, reorder_inv s -> reorder_inv (reorder_edges es s).
+Proof. exact reorder_edges_inv_preserved. Qed.
+Print Assumptions C09_reorder_inv_preserved.
+
+Theorem C09_reorder_edges_keeps_caches_exact : forall es s,
+  ebu_ok s -> fbu_ok s -> vbu_ok s ->
+  (ebu s = true -> fbu s = true /\ slots_nodup s /\ cells_ref_live s /\ live_cells_closed s) ->
+  let s' := reorder_edges es s in
+  ebu_ok s' /\ fbu_ok s' /\ vbu_ok s' /\ (ebu s = true -> slots_nodup s').
+Proof. exact reorder_edges_keeps_caches_exact. Qed.
+Print Assumptions C09_reorder_edges_keeps_caches_exact.
+
+Example C09_reorder_inv_satisfiable :
+  reorder_inv ring3_state /\ reorder_inv (reorder_edges [0; 1; 2; 3; 4; 5; 6; 7; 8; 9] ring3_state).
+Proof. exact reorder_inv_satisfiable. Qed.
 
 (* ------------------------------------------------------------------ non-vacuity *)
 
